@@ -36,6 +36,11 @@ class Proc:
 def forged(r, setup, spec):
     """one forged datagram for victim B"""
     b, a = setup["b"], setup["a"]
+    if spec["cls"] == "raw":
+        # datagrams that are not STUN at all: anyone can send them to an advertised candidate
+        k = spec["raw"]
+        return {"empty": b"", "one-byte": b"\x00", "short-header": struct.pack(">HHI", 0x0001, 0, pystun.MAGIC) + b"\x01\x02", "garbage": bytes([0x40 + r.randrange(0x40)]) + r.randbytes(29),
+                "rtp-like": b"\x80\x60" + r.randbytes(10), "header-only-lying-length": struct.pack(">HHI", 0x0001, 400, pystun.MAGIC) + r.randbytes(12)}[k]
     cls = {"request": 0x0001, "success": 0x0101, "error": 0x0111, "indication": 0x0011}[spec["cls"]]
     tid = r.randbytes(12)
     attrs = []
@@ -100,16 +105,20 @@ INTEG = ["none", "wrong-key", "other-sides-key", "valid-then-altered", "truncate
 def gen_spec(r, allow_valid=False):
     spec = {"cls": r.choice(["request"] * 5 + ["success", "success", "error", "indication"]), "integrity": r.choice(INTEG), "user": r.choice(["right", "right", "wrong", "reversed", "none"]),
             "use_candidate": r.random() < 0.5, "role": r.choice(["controlling", "controlled", "none"]), "fingerprint": r.random() < 0.7}
+    if r.random() < 0.2:
+        spec = {"cls": "raw", "raw": r.choice(["empty", "empty", "one-byte", "short-header", "garbage", "rtp-like", "header-only-lying-length"]), "integrity": "n/a", "user": "n/a"}
     return spec
 
 
-def attack_case(P, r, honest, stats, viol, respond="nointegrity"):
+def attack_case(P, r, honest, stats, viol, respond="nointegrity", specs=None, start_at=None):
     setup = P.rpc({"op": "setup", "aControlling": r.random() < 0.5, "relay": True})
-    specs = [gen_spec(r) for _ in range(r.choice([1, 3, 6]))]
-    start_at = r.choice([0, 150])
+    repeat = specs is not None
+    if specs is None:
+        specs = [gen_spec(r) for _ in range(r.choice([1, 3, 6]))]
+        start_at = r.choice([0, 150])
     packets = []
     for sp in specs:
-        when = r.choice(["before", "during", "after"])
+        when = sp.get("when") or r.choice(["before", "during", "after"])
         at = {"before": r.randrange(0, max(1, start_at)), "during": start_at + r.randrange(0, 600), "after": start_at + 700 + r.randrange(0, 200)}[when]
         sp["when"] = when
         packets.append({"hex": forged(r, setup, sp).hex(), "at": at})
@@ -136,7 +145,7 @@ def attack_case(P, r, honest, stats, viol, respond="nointegrity"):
     if honest:
         if not (out["a"]["connected"] and out["b"]["connected"]):
             if out["timedOut"]:
-                return "honest negotiation under attack timed out"
+                return ("under-attack-timeout", specs, start_at, w)
         elif marker.hex() not in out["a"]["received"]:
             viol.append(("data-diverted", "application data sent after the honest connect did not arrive at the honest peer", w))
         else:
@@ -170,7 +179,7 @@ def honest_case(P, r, a_controls, reverse, drop_ab, drop_ba, sizes, stats, viol)
     payloads = []
     for i, n in enumerate(sizes):
         frm = "a" if i % 2 == 0 else "b"
-        payloads.append({"from": frm, "hex": (bytes([0x80 + i % 100]) + r.randbytes(n - 1)).hex() if n > 1 else bytes([0x80 + i % 100]).hex()})
+        payloads.append({"from": frm, "hex": "" if n == 0 else (bytes([0x80 + i % 100]) + r.randbytes(n - 1)).hex() if n > 1 else bytes([0x80 + i % 100]).hex()})
     out = P.rpc({"op": "run", "honest": True, "packets": [], "startAt": 0, "watchdog": 12000, "linger": 250, "dropAB": drop_ab, "dropBA": drop_ba, "reverseCandidates": reverse, "payloads": payloads})
     stats["honest_cases"] += 1
     w = {"a_controlling": a_controls, "drop_first_transmissions": {"a->b": drop_ab, "b->a": drop_ba}, "relay_transactions": out["relayTx"], "elapsed_ms": out["elapsed"], "a_log": out["a"]["log"], "b_log": out["b"]["log"]}
@@ -222,7 +231,18 @@ def worker(args):
     for i in range(n_attack):
         e = guarded(attack_case, r, i % 3 != 0, stats, viol)
         if e:
-            inconc.append(e)
+            # bounded progress: the honest peers did not connect while unauthenticated traffic arrived. Repeat with the same forged datagrams;
+            # if it fails again and the same pair of agents connects at once when nobody interferes, the traffic had an effect
+            e2 = guarded(attack_case, r, True, stats, viol, "nointegrity", e[1], e[2])
+            if e2:
+                e3 = guarded(attack_case, r, True, stats, viol, "nointegrity", [], 0)
+                if not e3:
+                    kinds = sorted(set("%s/%s" % (s_["cls"], s_.get("raw") or s_["integrity"]) for s_ in e[1]))
+                    viol.append(("unauthenticated-traffic-blocks-honest-peers %s" % kinds[0], "two honest agents did not reach connected (twice) while datagrams from a sender without the credentials arrived, and connect when nobody interferes", e2[3]))
+                else:
+                    inconc.append("honest negotiation timed out with and without interference")
+            else:
+                stats["under_attack_timeout_not_reproduced"] += 1
     for (a_controls, reverse, dab, dba, sizes) in honest_jobs:
         e = guarded(honest_case, r, a_controls, reverse, dab, dba, sizes, stats, viol)
         if e and e[0] == "one-sided":
@@ -254,7 +274,7 @@ def main(tier, replay=None):
     for i in range(n_h):
         dab = subsets[i % len(subsets)]
         dba = r.choice(subsets) if i % 2 else []
-        sizes = [r.choice([1, 2, 16, 100, 576, 1200, 1400]) for _ in range(r.choice([2, 4, 8]))]
+        sizes = [r.choice([0, 1, 2, 16, 100, 576, 1200, 1400]) for _ in range(r.choice([2, 4, 8]))]
         honest.append((i % 2 == 0, (i // 2) % 2 == 0, dab, dba, sizes))
     with ProcessPoolExecutor(max_workers=W) as pool:
         res = list(pool.map(worker, [(w, n_attack, honest[w::W], 1) for w in range(W)]))
@@ -267,9 +287,9 @@ def main(tier, replay=None):
         stats.update(st)
     cov = {"evaluations": stats["forged_packets"] + stats["honest_cases"], "distinct_nontrivial": stats["attack_only_ok"] + stats["honest_under_attack_ok"] + stats["honest_ok"],
            "rule": "forged STUN datagrams built by an independent Python encoder (binding request / success / error / indication x integrity {absent, wrong key, the other side's key, valid value over altered content, cut off at the "
-                   "integrity value, all-zero} x username {right, wrong, reversed, none} x USE-CANDIDATE x role attribute x fingerprint) sent from an attacker socket to a listening component before, during and after an honest "
+                   "integrity value, all-zero} x username {right, wrong, reversed, none} x USE-CANDIDATE x role attribute x fingerprint), and datagrams that are no STUN at all (empty, one byte, half a header, a header announcing more than follows, garbage, RTP-like), sent from an attacker socket to a listening component before, during and after an honest "
                    "negotiation or with no honest peer at all; honest negotiations through a relay that drops chosen first transmissions (every subset of the first 4 transactions) under both role assignments and candidate orders, "
-                   "then unique datagrams of 1..1400 bytes both ways; observations: the attacker's receive log, connected()/isConnected(), 'ICE pair selected' log lines, the peers' received datagrams",
+                   "then unique datagrams of 0..1400 bytes both ways; observations: the attacker's receive log, connected()/isConnected(), 'ICE pair selected' log lines, the peers' received datagrams",
            "observed": dict(stats), "samples": [{"forged": {"cls": "request", "integrity": "none", "user": "right", "use_candidate": True}, "expected": "no datagram to the attacker"}]}
     floors = {"forged": stats["forged_packets"] >= 100, "positive_control": stats["positive_control_answered"] > 0, "honest_ok": stats["honest_ok"] > 0, "honest_with_loss": stats["honest_with_loss_ok"] > 0,
               "under_attack": stats["honest_under_attack_ok"] > 0}
